@@ -180,13 +180,14 @@ def analyse_trace(evs, rep, session_desc):
 
 def coverage_session(rep, seed, sched_seed, thorough):
     """one session that exercises every handler; returns (sites seen, distinct task programs)"""
-    ws = make_workspace({"a.lua": LUA_A, "b.lua": LUA_B, "sub/c.lua": "return 1\n"}, emmyrc={"diagnostics": {"diagnosticInterval": 100}})
+    ws = make_workspace({"a.lua": LUA_A, "b.lua": LUA_B, "sub/c.lua": "return 1\n"},
+                        emmyrc={"diagnostics": {"diagnosticInterval": 100}, "workspace": {"enableReindex": True, "reindexDuration": 1000}})
     trace = os.path.join(ws, ".verif-trace.tsv")
     desc = {"kind": "session", "session": "coverage", "seed": seed, "sched_seed": sched_seed}
     s = Server(ws, sched_seed=sched_seed, trace=trace)
     hung = []
     try:
-        if s.initialize() is None or not s.wait_ready():
+        if s.initialize(work_done_progress=True) is None or not s.wait_ready():
             rep.oracle_failure({"class": "hang", "what": "server did not finish initialization", "input": desc})
             return set(), set(), 0
         ua, ub = path_uri(os.path.join(ws, "a.lua")), path_uri(os.path.join(ws, "b.lua"))
